@@ -5,7 +5,7 @@
 
 """
 
-from collections.abc import Hashable, Iterable
+from collections.abc import Hashable, Iterable, Iterator
 from copy import copy, deepcopy
 from itertools import count
 from warnings import warn
@@ -689,6 +689,11 @@ class DiHypergraph:
                 else:
                     raise XGIError("Directed edge must be a list or tuple!")
 
+                # one-shot iterables: read them once
+                if isinstance(tail, Iterator):
+                    tail = list(tail)
+                if isinstance(head, Iterator):
+                    head = list(head)
                 try:
                     tail_set, head_set = set(tail), set(head)
                 except TypeError as e:
@@ -757,6 +762,11 @@ class DiHypergraph:
                 try:
                     tail = members[0]
                     head = members[1]
+                    # one-shot iterables: read them once
+                    if isinstance(tail, Iterator):
+                        tail = list(tail)
+                    if isinstance(head, Iterator):
+                        head = list(head)
                     tail_set, head_set = set(tail), set(head)
                 except TypeError as e:
                     raise XGIError("Invalid ebunch format") from e
